@@ -609,7 +609,7 @@ def execute(env, attr, init, prog, created=False, source=None):
                     return res
                 if st['pk'] is None: st['pk'] = st['e'].id
                 ds.__enter__()
-                st['e'] = E[st['pk']]; st['vars'] = {}; st['mvars'] = {}
+                st['e'] = E[st['pk']]; st['e2'] = E[st['pk2']]; st['vars'] = {}; st['mvars'] = {}
                 loaded = canon(rootval())
                 if loaded != insess: res.losses.append({'at': idx, 'kind': 'new session', 'observed': loaded, 'expected': insess})
                 if canon(st['mirror']) != insess: res.mirror_diffs.append({'at': idx, 'what': 'value at end of session', 'real': insess, 'mirror': canon(st['mirror'])})
